@@ -18,7 +18,8 @@ RULE = (
     "arrays / numpy record array / pandas DataFrame with string-expression quantities / a bare 1-D ndarray with "
     "quantities over the datum itself), weights (omitted / positive "
     "scalar / zero scalar / non-negative array incl. zeros) and cut points splitting the batch into 1..4 successive "
-    "fill.numpy calls (empty batches allowed; the calls get freshly built arrays or consecutive slices of one table).  Oracle: a twin tree filled row by row with the same weights has the "
+    "fill.numpy calls (empty batches allowed; the calls get freshly built arrays or consecutive slices of one table).  Oracle: a twin tree filled row by row with the same weights (in a sixth of the cases the rows are taken from the "
+    "arrays themselves, so their values are numpy scalars) has the "
     "same document up to zero-weight sparse bins/categories (counts bit-exact when every partial sum is representable, "
     "rel 1e-9 otherwise, tolerance on means/variances); an exception on one side only is a violation; all input "
     "arrays are byte-identical (NaN-aware) to copies taken before the call.  Non-trivial: the batch holds a positively "
@@ -142,7 +143,8 @@ def strategy(tier):
         else:
             w = None
         cuts = draw(gen.cuts(n, 4))
-        return {"spec": spec, "rep": rep, "batch": batch, "wmode": wmode, "w": w, "cuts": cuts, "excluded": excluded, "views": draw(st.booleans())}
+        return {"spec": spec, "rep": rep, "batch": batch, "wmode": wmode, "w": w, "cuts": cuts, "excluded": excluded, "views": draw(st.booleans()),
+                "np_rows": draw(st.integers(0, 5)) == 0}
 
     return cases()
 
@@ -257,8 +259,24 @@ def check(case):
         else:
             hnp.fill.numpy(data, w)
         require(_unchanged(case["rep"], before, data), "input-modified", "fill.numpy modified the caller's data")
-        for i in ch:
-            hrow.fill(rows[i]["x"] if bare else rows[i], roww[i])
+        for n_, i in enumerate(ch):
+            if case.get("np_rows") and case["rep"] in ("dict", "recarray"):
+                # "once per row" of the very arrays: the row's values are numpy scalars (np.float64, np.bool_, np.str_)
+                src = data if case.get("views", True) else make_data(case["rep"], sub)
+                names = src.keys() if case["rep"] == "dict" else src.dtype.names
+                row = {c: src[c][n_] for c in names}
+                try:
+                    hrow.fill(row, roww[i])
+                except TypeError as e:
+                    if "numpy.bool" in str(type(row["b"])) and ("must be boolean or number" in str(e) or "must be a string or bool" in str(e)):
+                        raise Violation(
+                            "row-numpy-bool",
+                            f"fill of a row taken from the arrays raised {e} (a numpy.bool_ is not accepted where a Python bool is), fill.numpy of the arrays is fine",
+                            {"value": "numpy.bool_", "path": "row"},
+                        ) from None
+                    raise
+            else:
+                hrow.fill(rows[i]["x"] if bare else rows[i], roww[i])
 
     drow = norm.norm(hrow.toJson(), drop_zero=True)
     dnp = norm.norm(hnp.toJson(), drop_zero=True)
